@@ -20,6 +20,15 @@ def Blk.len : Blk → Nat
   | .call _ _ _ n => n
   | .raw xs => xs.length
 
+/-- exact evaluation of a block where the model can do it (ramp, zeros, raw) -/
+def Blk.eval? : Blk → Option (List Rat)
+  | .raw xs => some xs
+  | .call fn args sr n =>
+    match fn.shape, args with
+    | .ramp, [.num a, .num b] => some ((List.range n).map (fun k => Gen.ramp a b sr ((n : Int) : Rat) k))
+    | .zeros, _ => some ((List.range n).map (fun k => Gen.waituntil 0 sr ((n : Int) : Rat) k))
+    | _, _ => none
+
 /-- the per-channel result of forging -/
 structure Forged where
   blocks : List Blk
@@ -37,8 +46,10 @@ def segCount (d sr : Rat) : Int := rhe (d * sr)
 def countsGo (sr : Rat) : List Rat → Except Err (List Nat)
   | [] => .ok []
   | d :: ds =>
-    let n := segCount d sr
-    if Gen.segTooShort n then .error .segdur else (countsGo sr ds).map (n.toNat :: ·)
+    if Gen.segTooShort (segCount d sr) then .error .segdur
+    else match countsGo sr ds with
+      | .error e => .error e
+      | .ok ns => .ok ((segCount d sr).toNat :: ns)
 
 /-- Python slice assignment `marker[ind : ind + chunk] = 1` on an array of length `N`
     (`0 ≤ ind < N`); a negative stop counts from the end, as in Python. -/
@@ -77,25 +88,29 @@ def mkBlocks (sr : Rat) : List Seg → List Nat → List Blk
   | s :: ss, n :: ns => Blk.call (forgeFn s.fn) s.args sr n :: mkBlocks sr ss ns
   | _, _ => []
 
+/-- put the forged channel together from the resolved sample counts -/
+def assemble (b : BP) (sr : Rat) (ns : List Nat) : Forged :=
+  let N := sumN ns
+  let sts := starts ns 0
+  { blocks := mkBlocks sr b.segs ns
+    m1 := paint N ((b.marker1 ++ segMarks sr (·.m1) b.segs sts).map (window N sr))
+    m2 := paint N ((b.marker2 ++ segMarks sr (·.m2) b.segs sts).map (window N sr))
+    N := N, SR := sr
+    newdurations := ns.map (fun (n : Nat) => ((n : Int) : Rat) / sr) }
+
+/-- calling a special string other than 'waituntil' is a TypeError -/
+def badSpecial (b : BP) : Bool := b.segs.any (fun s => s.fn.special && !s.fn.isWait)
+
 /-- `_subelementBuilder(blueprint, SR, durs)` with `SR = blueprint.SR`, `durs = blueprint.durations` -/
 def forgeBP (b : BP) : Except Err Forged :=
   match b.SR with
   | .num sr =>
-    if sr = 0 then .error .segdur   -- round(dur*0) = 0 < 2 (an empty blueprint cannot be stored)
-    else do
-      let durs ← b.resolveWaits
-      let ns ← countsGo sr durs
-      -- calling a special string other than 'waituntil' is a TypeError
-      if b.segs.any (fun s => s.fn.special && !s.fn.isWait) then throw .type
-      let N := sumN ns
-      let sts := starts ns 0
-      let ms1 := b.marker1 ++ segMarks sr (·.m1) b.segs sts
-      let ms2 := b.marker2 ++ segMarks sr (·.m2) b.segs sts
-      pure { blocks := mkBlocks sr b.segs ns
-             m1 := paint N (ms1.map (window N sr))
-             m2 := paint N (ms2.map (window N sr))
-             N := N, SR := sr
-             newdurations := ns.map (fun (n : Nat) => ((n : Int) : Rat) / sr) }
+    match b.resolveWaits with
+    | .error e => .error e
+    | .ok durs =>
+      match countsGo sr durs with
+      | .error e => .error e
+      | .ok ns => if badSpecial b then .error .type else .ok (assemble b sr ns)
   | _ => .error .type
 
 end BB
